@@ -433,8 +433,23 @@ def strict(v, rows, skip, limit=None, rnd=None):
     failed setup or a panic are skipped."""
     tr = vlib.split_traces(rows)
     keep = []
+
+    def many_holds(t):
+        # more than three gates armed between two `open`s: the interleavings of everything released at once
+        # are too many for the trace checker (the monitor still judges the trace)
+        n = 0
+        for x in t:
+            if x.get("ev") == "step" and x.get("applied"):
+                if (x.get("op") or "").startswith("gate"):
+                    n += 1
+                    if n > 3:
+                        return True
+                elif x.get("op") == "open":
+                    n = 0
+        return False
+
     for tid, s, t in tr:
-        if tid in skip or t[0].get("maxbytes") or \
+        if tid in skip or t[0].get("maxbytes") or many_holds(t) or \
                 any(x.get("ev") in ("panic", "setup.error") or (x.get("ev") == "step" and x.get("op") == "delf") for x in t):
             continue
         keep.append((tid, t))
